@@ -319,9 +319,30 @@ def family_cse(tier):
     out.append(mk("identity-outs", [y, x]))
     out.append(mk("swap", [y, x, mul(x, y)]))
     out.append(mk("dtshare", [add(x, mul(DT, s1)), add(y, mul(DT, s1)), mul(DT, mul(DT, s1))]))
+    out.append(many_temporaries(13, "a"))
+    out.append(many_temporaries(24, "b"))
     if tier == "quick":
-        return out[::4] + out[-8:]
+        return out[::4] + out[-10:]
     return out
+
+
+def many_temporaries(depth, tag):
+    """a chain t_i = f_i(t_{i-1} + operand_i), every link shared by the next link and by two outputs: sympy.cse extracts
+    >= depth temporaries in ONE block, so temporary names reach _t10, _t11, ... (name order != creation order)"""
+    x, y, u, c = S("x"), S("y"), S("u"), S("c")
+    fs = ["sin", "cos", "tanh", "atan"]
+    ops = [x, y, u, c, DT]
+    t = add(x, y)
+    links = []
+    for i in range(depth):
+        t = fn(fs[i % 4], add(mul(C(1 + i % 3, 4), t), ops[i % 5]))
+        links.append(t)
+    outs = []
+    for j in range(3):
+        terms = [links[i] for i in range(depth) if i % 3 == j] + [mul(links[i], ops[(i + j) % 5]) for i in range(depth) if i % 3 == (j + 1) % 3]
+        outs.append(sum_(terms))
+    st = ["z", "y", "x"]
+    return mkdef(f"cse-manytemps{depth}{tag}", st, ["u"], ["c"], [[n, e] for n, e in zip(st, outs)], [["c", 0.625]], [["u", 0.25]])
 
 
 def family_sing():
